@@ -58,6 +58,8 @@ impl Monitor for C04 {
             }
         }
         let alt_chunk = *rng.pick(&[2usize, 3, 7, 8, 9, 16, 17, 64, 16384]);
+        // the second run of every fault offset goes through one of the other ways to build a parser
+        let alt_ctor = if rng.chance(1, 2) { drive::random_ctor(rng) } else { Ctor::Chunk(alt_chunk) };
         for k in 0..=len {
             for variant in 0..2 {
                 let (policy, ctor) = if variant == 0 {
@@ -72,7 +74,7 @@ impl Monitor for C04 {
                             },
                             _ => Policy::Fixed(1 + k % 7),
                         },
-                        Ctor::Chunk(alt_chunk),
+                        alt_ctor,
                     )
                 };
                 let src = Src::new(data.clone(), policy.clone(), (k as u64) << 8 | idx).failing_at(k);
